@@ -18,7 +18,7 @@ RULE = (
     
     "Option('S.W') (second key of the same section), Option('S.Z.K', 0) (deeper key of that section), brace-bearing string constant, "
     "mutable list constant, whole-section Option (re-ordered section), member inherited from a plain base class}; "
-    "all classes with 1..3 distinct kinds; plus a dataset class derived "
+    "all classes with 1..3 distinct kinds (thorough: 1..4); plus a dataset class derived "
     "from another dataset class in three usage orders; dictionaries = product of the "
     "keys the members mention (+ one junk key, + sibling S.Y); for every dictionary: attributes, validate/keys/"
     "explain = union over members, repr; for every ORDERED PAIR: a == b iff restrict(o_a, keys) == restrict(o_b, "
@@ -93,7 +93,7 @@ def class_dicts(kinds):
 def cases(tier, seed):
     out = []
     combos = []
-    for n in (1, 2, 3):
+    for n in (1, 2, 3) if tier == "quick" else (1, 2, 3, 4):
         combos.extend(itertools.combinations(KINDS, n))
     for a in range(0, len(combos), 4):
         out.append(("classes", [list(c) for c in combos[a : a + 4]]))
@@ -267,6 +267,7 @@ def summarize(results, tier):
         "instances": tot("evaluations"),
         "ordered_pairs": tot("pairs"),
         "classes": tot("classes"),
+        "max_members": 3 if tier == "quick" else 4,
         "samples": samples[:4],
         "exhaustive": True,
     }
